@@ -19,6 +19,39 @@ CLAIMED = {
                 note='Trusted: CPython integer semantics as encoded (floor shifts, masks), z3.', ref='DESIGN 4 C07'),
 }
 
+
+def _p(cat, technique, text, note, ref):
+    return dict(cat=cat, technique=technique, text=text, note=note, ref=ref)
+
+
+T_DED = 'contract-based deductive verification: VCs generated from the AST of the real functions (re-read every run) against sidecar contracts, discharged by z3'
+CLAIMED.update({
+    'C03': _p('proof', T_DED + '; Hoare loop-body step VCs of the five layout passes under the LabelsExact invariant',
+              'Loop-body step VCs (no unrolling) of resolve_labels, transform_compressible, transform_pseudo_instructions, resolve_aligns, resolve_immediates for an arbitrary item of every Item class: position tracks emitted sizes, every label stays exact, immediates are evaluated at the item own offset; Offset/Position/Hi/Lo eval contracts; encoder decode contracts of all control transfers; expansion effect lemmas of j/jal/call/tail/branches.',
+              'Trusted: CPython semantics of the modelled subset, label names distinct, align N >= 1, spec transcription, z3. Composition of the passes in assemble() and the lexer/parser are covered by the bounded stand-in (generated programs, targets recomputed from per-item chunks).', 'DESIGN 4 C03'),
+    'C04': _p('proof', T_DED + '; per-rule VCs over the real criteria table and construction chain against the RVC expansion spec',
+              'For every 32-bit instruction class/mnemonic and every path of the real first-match criteria evaluation: the constructed c.* item expands (RVC tables) to the original instruction operand by operand, its operands are legal for the encoder, non-instruction items are untouched, the jalr half of a far call is never compressed.',
+              'Literal operands (decision-time value is final); label-dependent immediates rely on C03 step VCs plus the bounded both-modes comparison. Trusted: spec/rvc.py, spec/step.py, z3.', 'DESIGN 4 C04'),
+    'C05': _p('proof', T_DED + '; effect lemmas of every pseudo-instruction expansion against reference RV32 step semantics on an arbitrary register file (BV) and over unbounded integers for li',
+              'Every path of every expansion branch of the real transform_pseudo_instructions: constructed instructions executed by the reference step semantics equal the documented effect for all register files, registers choices incl. x0 and rd = rs, all li values.',
+              'Premise for li: operand value is the same at both instructions. Trusted: spec/step.py and spec/pseudo.py transcriptions, C07 (in the cone), z3. With -c: bounded only.', 'DESIGN 4 C05'),
+    'C06': _p('proof', T_DED + '; exceptional postconditions raises ValueError <=> operand not legal, both directions, unbounded integers',
+              'All 93 mnemonics: every returning path of the real encoder implies legal(t), every raising path raises ValueError and implies not legal(t); resolve_instructions converts to AssemblerError with the item line and emits nothing.',
+              'Legal sets from the manual and, where the repository documents narrower or dual spellings (jalr even, CSR slot signed, U dual spelling), from its documentation. Front end bounded.', 'DESIGN 4 C06'),
+    'C08': _p('proof', T_DED + '; eval contracts of Offset/Position/Hi/Lo + resolve_immediates step VC + LabelsExact chain',
+              'The value baked into any item (instruction, dw, pack) is its expression evaluated once at the item own output offset in ChainMap(constants, labels) with an exact label table; Offset = L - position, Position = base + L.',
+              'A-EVAL: a bare label in an Arithmetic expression goes through Python eval (assumed: name lookup). Earlier evaluations (li/call size choice, compression predicates) only select shapes.', 'DESIGN 4 C08'),
+    'C09': _p('proof', T_DED + '; Align.resolution_size for symbolic N, emit-length = size() per item kind and pass, append-only frames',
+              'resolution_size returns the unique minimal padding for symbolic N >= 1; every emission pass produces exactly size() bytes per item; passes only append in order; resolve_blobs concatenates.',
+              'A-STRUCT (struct.pack lengths), sequence lengths unrolled 0..3 with a fully symbolic per-value body, filesystem external.', 'DESIGN 4 C09'),
+    'C12': _p('other', T_DED + ' for literal operands (exception freedom of the criteria predicates, constructed operand evaluates, accept => accept); bounded differential for label-dependent operands',
+              'Proof for literal operands; for label-dependent immediates the property is genuinely violated on this tree (two recorded KNOWN-FINDINGs), any other failing program is reported.',
+              'See KNOWN_FINDINGS.txt; bounded part: every generated program accepted without -c re-assembled with -c.', 'DESIGN 4 C12'),
+    'C20': _p('proof', T_DED + '; eligibility VCs: a kept 32-bit item is not the expansion of any legal non-hint c.X; per-step non-growth',
+              'For every class/mnemonic and every path of the real criteria evaluation that keeps the item: no legal non-hint RVC instruction expands to it (literal operands, legal instruction); every step new size <= old size with labels moved down by the difference.',
+              'Cross-mode comparison (lengths, labels) is bounded; li over label arithmetic can violate it (see DESIGN 6).', 'DESIGN 4 C20'),
+})
+
 NOT_YET = {}
 
 
